@@ -125,6 +125,7 @@ static inline double cm_ceil(double x)
   static inline T *NAME##_back(struct NAME *v) { __CPROVER_assert(v->n > 0, "vector::back on empty vector"); return &v->e[v->n - 1]; } \
   static inline T *NAME##_front(struct NAME *v) { __CPROVER_assert(v->n > 0, "vector::front on empty vector"); return &v->e[0]; } \
   static inline T *NAME##_idx(struct NAME *v, U_t i) { __CPROVER_assert(i < v->n, "vector index in range"); return &v->e[i]; } \
+  static inline U_t NAME##_chk(struct NAME *v, U_t i) { __CPROVER_assert(i < v->n, "vector index in range"); return i; } \
   static inline struct NAME NAME##_new_n(U_t n, T x) { struct NAME v; CM_CAP_ASSERT(n <= CAP); v.n = n; for (U_t i = 0; i < CAP; i++) if (i < n) v.e[i] = x; return v; } \
   static inline void NAME##_resize(struct NAME *v, U_t n, T x) { CM_CAP_ASSERT(n <= CAP); for (U_t i = 0; i < CAP; i++) if (i >= v->n && i < n) v->e[i] = x; v->n = n; } \
   static inline void NAME##_assign_n(struct NAME *v, U_t n, T x) { CM_CAP_ASSERT(n <= CAP); for (U_t i = 0; i < CAP; i++) if (i < n) v->e[i] = x; v->n = n; } \
